@@ -17,7 +17,7 @@ LEVEL = "translation_validation"
 RULE = (
     "Hypothesis draws a geometry (cols 1-40 incl. 1, 8, 16, 20, 40; rows 1-4; parallel with/without rw and backlight_pin, or I2C) and 3-18 operations: write(col,row,"
     "text, clear_row, align), line(row, text, align, clear_row), message(top, bottom, aligns, clear_rows), clear(), progress(row, value, max, width in 1..cols+3 or "
-    "None, style, label) incl. increasing value runs, display/backlight/brightness, glyph(slot, 8 rows); texts are printable ASCII of length 0, < space, = space, > space "
+    "None, style, label) incl. increasing value runs, display/backlight/brightness, glyph(slot, 8 rows) incl. runs that alternate a pool of 2-3 bitmaps on 1-2 slots; texts are printable ASCII of length 0, < space, = space, > space "
     "and > cols, given as literals or as run-time Strings read from the serial tape. After every operation both sides dump the display. Oracle: cell-for-cell "
     "equality with host LCD.dump() (rows touched by a progress bar whose value*width is not a multiple of max may differ by one fill cell), no out-of-window write "
     "on the device, host rows keep length cols, progress fill monotone and saturating, backlight pin level == (on ? brightness : 0), createChar bytes == host "
@@ -44,6 +44,7 @@ def history(draw):
     ops = []
     nt = [0]
     k = [0]
+    pool, slots, glyph_runs = [], [], [0]
 
     def text(space):
         cls = draw(st.sampled_from(["empty", "short", "exact", "over", "long"]))
@@ -67,7 +68,7 @@ def history(draw):
         return a
 
     for j in range(draw(st.integers(3, 18))):
-        o = draw(st.sampled_from(["write", "write", "line", "line", "message", "clear", "progress", "progress_run", "display", "backlight", "brightness", "glyph"]))
+        o = draw(st.sampled_from(["write", "write", "line", "line", "message", "clear", "progress", "progress_run", "display", "backlight", "brightness", "glyph", "glyph_run"]))
         r = draw(st.integers(0, rows - 1))
         if o == "write":
             c = draw(st.integers(0, cols - 1))
@@ -128,12 +129,23 @@ def history(draw):
                 continue
             lines.append(f"lcd.brightness({draw(st.sampled_from([0, 1, 128, 254, 255]) | st.integers(0, 255))})")
             ops.append({"op": "brightness", "row": None, "full": False})
+        elif o == "glyph_run":
+            # a short animation on one or two slots out of a pool of two or three bitmaps: the same (slot, bitmap) pair recurs after another upload
+            if not pool:
+                pool.extend([draw(st.integers(0, 255)) for _ in range(8)] for _ in range(draw(st.integers(2, 3))))
+                slots.extend(draw(st.lists(st.integers(0, 7), min_size=1, max_size=2, unique=True)))
+            for _ in range(draw(st.integers(2, 4))):
+                lines.append(f"lcd.glyph({draw(st.sampled_from(slots))}, {draw(st.sampled_from(pool))!r})")
+                ops.append({"op": "glyph", "row": None, "full": False})
+                lines.append("mon.write('@@DUMP')")
+            glyph_runs[0] += 1
+            continue
         else:
             rowsv = [draw(st.integers(0, 255)) for _ in range(8)]
             lines.append(f"lcd.glyph({draw(st.integers(0, 7))}, {rowsv!r})")
             ops.append({"op": "glyph", "row": None, "full": False})
         lines.append("mon.write('@@DUMP')")
-    return {"src": "\n".join(lines) + "\n", "ops": ops, "serial": serial, "cols": cols, "rows": rows, "wiring": wiring, "nt": nt[0] > 0}
+    return {"src": "\n".join(lines) + "\n", "ops": ops, "serial": serial, "cols": cols, "rows": rows, "wiring": wiring, "nt": nt[0] > 0 or glyph_runs[0] > 0}
 
 
 def fw_dumps(trace):
